@@ -91,6 +91,11 @@ def obligations(tier):
         obs.append(Ob('O5.4-compound-ulp', 'fn', 'harness.C05:fp_compound_traced', slices=[{'w': 10, 'mode': 'ulp'}], timeout=1200,
                       descr='the computed amount is never more than one ulp from the nearest double of the decimal amount', bounds='N < 2^10, M < 100',
                       engine='z3 floating-point (bit-blasted) query'))
+    obs.append(Ob('O5.6-longest-prefix', 'sx', 'harness.spans:h_unit_extract_prefixes', slices=[{'usrc': 'ab cd ef'}] + ([{'usrc': 'ab  cd ef gh'}] if tier == 'thorough' else []), timeout=t,
+                  descr="NumberWithUnitExtractor.extract with two prefix-unit matches in front of one number, the second being the tail of the first ('hk $' and '$' in 'hk $ 7'): the entity starts at the longer listed spelling "
+                        '(so that the unit is the one the table lists for the whole spelling)',
+                  bounds='number and both prefix matches at symbolic positions in a source of 8 (12) characters', encodes=['recognizers_number_with_unit.number_with_unit.extractors:NumberWithUnitExtractor.extract'],
+                  stubs=['number extractor and prefix / suffix matchers are stubs delivering the symbolic spans (matches sorted by start, as the real matcher delivers them)']))
     obs.append(Ob('O5.5-wiring', 'fn', 'harness.C05w:audit_wiring', timeout=t,
                   descr='audit (finite, exhaustive over the registry; not a solver verdict): every unit model registered for a culture builds its parser configuration and the number parser inside it for that culture '
                         '(the symbolic obligations stub that inner parser, i.e. assume it is the culture\'s own); the English pair inside the Chinese models is English on purpose',
